@@ -6,7 +6,7 @@ an unbound scope name) and optional *recovered* branches before it (Coalesce / O
 alternatives that fail and are caught): linear nestings (dict, list, Spec, Auto, Call / Invoke
 arguments, S(k=..)), chains (tuple, Pipe), branches (Coalesce, Or, And, Not, Switch) and branches
 inside chains inside branches; every leaf and every intermediate target has a unique, address-free
-repr, some longer than the width, some non-ASCII.
+repr, some longer than the width, some non-ASCII, some spanning several lines; error messages of one line and of several.
 
 Oracle: the evaluation tree (what was really evaluated, on which target, with which outcome) is
 recorded through the documented scope[glom] extension point; the message is parsed by its `|` depth
@@ -39,7 +39,15 @@ ASSUMPTIONS = [
     'failing spec is shown with the target it received; attempted branches of branch points on the path appear with their errors; '
     'no Spec line names a spec outside the failing path, its completed chain steps, its attempted branches or the innermost spec\'s '
     'own subtree; the message ends with the original error; same structure and no over-long line at widths 50..200',
-    'messages contain no newlines; truncated values must be a prefix of the full repr followed by "..." / "... (len=N)"',
+    'truncated values must be a prefix of the full repr followed by "..." / "... (len=N)"',
+    'entries: a repr or an error message with newlines makes ONE trace entry of several physical lines; only the first carries the '
+    'depth markers, the others are the text of the value / message and must follow verbatim (split_entries: the multi-line texts that '
+    'exist in an evaluation - reprs of its specs and targets, traceback.format_exception_only of its errors - are taken from the '
+    'evaluation tree; generated texts never start a continuation line with a marker column). All marker rules read the first line of '
+    'every entry; an X written into a continuation line is an altered message (kind entry-text-altered)',
+    'lazy, mode translated: when the consuming step answers the lazily raised failure with another error (Coalesce -> CoalesceError, Or -> '
+    'the MatchError of its last alternative, a callable with except X: raise Y [from X]) the lazily failing spec, the item it received '
+    'and its error are still listed, each level once, followed by the consuming step and what it evaluated',
     'branch markers (all sub-checks): a branch opens one level below the line above it (or right below the line that closed its '
     'elder sibling) with a backslash in its own column, X stands only on the last line of the branch whose column it is in, a branch '
     'followed by another one is closed by X; a closed branch of ONE line has a single column for both marks and shows X (accepted, '
@@ -78,9 +86,17 @@ class Named(object):
         return hash(self.name)
 
 
+ML_MESSAGE = '\nsecond line of the message of probe%d\n  third line, indented'
+
+
 class Probe(object):
+    """behaviours ending in '-ml' raise an error whose MESSAGE spans several lines; behaviours ending in '-mlrepr' belong to
+    a probe whose own repr (its Spec line) spans several lines; 'multiline' / 'list-ml' return targets whose repr does"""
     def __init__(self, n, behaviour):
         self.n, self.behaviour = n, behaviour
+        self.mlrepr = behaviour.endswith('-mlrepr')
+        if self.mlrepr:
+            self.behaviour = behaviour[:-len('-mlrepr')]
         self.__name__ = 'probe%d' % n
 
     def __call__(self, t):
@@ -89,6 +105,10 @@ class Probe(object):
             raise GlomError('probe%d refuses' % self.n)
         if b == 'valueerror':
             raise ValueError('probe%d fails' % self.n)
+        if b == 'glomerror-ml':
+            raise GlomError('probe%d refuses' % self.n + ML_MESSAGE % self.n)
+        if b == 'valueerror-ml':
+            raise ValueError('probe%d fails' % self.n + ML_MESSAGE % self.n)
         if b == 'keyerror':
             raise KeyError('probe%d key' % self.n)              # KeyError has its own __str__
         if b == 'oserror':
@@ -99,6 +119,10 @@ class Probe(object):
             return lst
         if b == 'list':
             return Named('L%d' % self.n, [Named('item%d_a' % self.n), Named('item%d_b' % self.n)])
+        if b == 'list-ml':
+            return Named('L%d' % self.n, [Named(ML_ITEM % (self.n, x)) for x in 'ab'])
+        if b == 'multiline':
+            return Named('t%d line one\nt%d line two\n  t%d line three' % (self.n, self.n, self.n))
         if b == 'long':
             return Named('long%d_' % self.n + 'x' * 90)
         if b == 'unicode':
@@ -108,7 +132,10 @@ class Probe(object):
         return Named('t%d' % self.n)
 
     def __repr__(self):
-        return 'probe%d' % self.n
+        return 'probe%d(\n  second line of the repr of probe%d)' % (self.n, self.n) if self.mlrepr else 'probe%d' % self.n
+
+
+ML_ITEM = 'item%d\n  second line of the item_%s'
 
 
 class Factory(object):
@@ -148,7 +175,8 @@ def gen_spec(draw, d, must_fail, counter):
     counter[0] += 1
     n = counter[0]
     kinds = ['leaf'] if d <= 0 else ['leaf', 'tuple', 'tuple', 'pipe', 'dict', 'list', 'coalesce', 'coalesce', 'or', 'and',
-                                     'not', 'switch', 'switch', 'auto', 'spec', 'call', 'invoke', 'sbind', 'recovered'] + \
+                                     'not', 'switch', 'switch', 'auto', 'spec', 'call', 'invoke', 'sbind', 'recovered',
+                                     'mlbranch', 'mlbranch'] + \
         (['coalesce-skip'] if must_fail else [])
     k = draw(S_(kinds))
     if k == 'leaf':
@@ -161,8 +189,12 @@ def gen_spec(draw, d, must_fail, counter):
             if draw(S_(range(8))) == 0:
                 # the failing spec is a bare T expression in ARGUMENT position (a default, a computed key, a Call argument)
                 return ['argfail', draw(S_(['coalesce-default', 'tkey', 'call'])), n]
-            return ['fail', draw(S_(['path', 'tstep', 'glomerror', 'valueerror', 'check', 'match', 'sunbound', 'path', 'tstep', 'keyerror', 'oserror'])), n]
-        return ['ok', draw(S_(['plain', 'plain', 'plain', 'long', 'unicode', 'clone'] * 4 + ['cyclic'])), n]
+            # ('-ml': the error MESSAGE spans several lines; '-mlrepr': the repr of the failing spec does; 'matchalts-ml': a
+            # target with a repr of several lines is rejected by every alternative of Match(Or(..)), with that repr in the messages)
+            return ['fail', draw(S_(['path', 'tstep', 'glomerror', 'valueerror', 'check', 'match', 'sunbound', 'path', 'tstep', 'keyerror', 'oserror',
+                                     'glomerror-ml', 'valueerror-ml', 'glomerror-mlrepr', 'matchalts-ml'])), n]
+        return ['ok', draw(S_(['plain', 'plain', 'plain', 'long', 'unicode', 'clone'] * 4 + ['cyclic'] +
+                              ['multiline', 'multiline', 'plain-mlrepr', 'plain-mlrepr'])), n]
     sub = lambda mf: gen_spec(draw, d - 1, mf, counter)
     if k in ('tuple', 'pipe'):
         m = draw(st.integers(1, 3))
@@ -211,6 +243,23 @@ def gen_spec(draw, d, must_fail, counter):
         return ['switch', cases]
     if k in ('auto', 'spec', 'call', 'invoke', 'sbind'):
         return [k, sub(must_fail)]
+    if k == 'mlbranch':
+        # a branching spec whose first alternatives fail with an error MESSAGE of several lines and are abandoned: the line
+        # that closes such a branch (X) is the FIRST physical line of a multi-line entry.  Coalesce(skip_exc=) abandons
+        # ValueErrors too
+        how = draw(S_(['coalesce', 'or', 'switch', 'coalesce-skipexc', 'coalesce-skipexc']))
+        heads = []
+        for _ in range(draw(S_([1, 1, 2]))):
+            counter[0] += 1
+            heads.append(['fail', draw(S_(['glomerror-ml', 'valueerror-ml'])) if how == 'coalesce-skipexc' else 'glomerror-ml', counter[0]])
+        if how != 'switch':
+            return [how, heads + [sub(must_fail)]]
+        cases = [[h, ['ok', 'plain', 0]] for h in heads]
+        if must_fail:
+            cases.append([sub(False), sub(True)] if draw(st.booleans()) else [sub(True), ['ok', 'plain', 0]])
+        else:
+            cases.append([sub(False), sub(False)])
+        return ['switch', cases]
     # recovered: a step that fails inside and recovers, followed by the rest of the chain
     rec = ['coalesce', [sub(True) for _ in range(draw(st.integers(1, 2)))] + [sub(False)]] if draw(st.booleans()) \
         else ['coalesce-default', [sub(True) for _ in range(draw(st.integers(1, 2)))]]
@@ -232,8 +281,10 @@ def build(r):
             return 'missing%d' % n
         if kind == 'tstep':
             return T['nope%d' % n]
-        if kind in ('glomerror', 'valueerror', 'keyerror', 'oserror'):
+        if kind in ('glomerror', 'valueerror', 'keyerror', 'oserror', 'glomerror-ml', 'valueerror-ml', 'glomerror-mlrepr'):
             return Probe(n, kind)
+        if kind == 'matchalts-ml':
+            return (Probe(n + 700, 'multiline'), Match(Or('expected%d_a' % n, 'expected%d_b' % n, 'expected%d_c' % n)))
         if kind == 'check':
             return Check(type=(int, type('Marker%d' % n, (), {})))
         if kind == 'match':
@@ -264,6 +315,8 @@ def build(r):
         return Coalesce(*[build(x) for x in r[1]])
     if k == 'coalesce-skip':
         return Coalesce(*[build(x) for x in r[1]], skip=skip_all)
+    if k == 'coalesce-skipexc':
+        return Coalesce(*[build(x) for x in r[1]], skip_exc=(ValueError, GlomError))
     if k == 'coalesce-default':
         return Coalesce(*[build(x) for x in r[1]], default=Val('recovered'))
     if k == 'or':
@@ -366,8 +419,84 @@ def parse_line(line):
     return (depth, tick, 'error', rest)
 
 
+def known_texts(values):
+    """the texts of several lines among `values` (full reprs of the specs and targets of an evaluation, the
+    `type: message` lines of its errors), each once"""
+    out = []
+    for v in values:
+        if '\n' in v and v not in out:
+            out.append(v)
+    return out
+
+
+def tree_texts(root):
+    """the multi-line texts of an evaluation: reprs of the specs and targets, `type: message` of the errors"""
+    vals, seen = [], set()
+    for x in root.children[0].subtree():
+        for o in (x.spec, x.target):
+            if id(o) not in seen:           # (the same target is handed down many levels)
+                seen.add(id(o))
+                # (the builtin repr marks a container that contains itself; glom's recurses to the limit: only asked when needed)
+                if '\n' in repr(o):
+                    vals.append(fmtval(o, 0))
+        if x.exc is not None and id(x.exc) not in seen:
+            seen.add(id(x.exc))
+            vals.append(exc_line(x.exc))
+    return known_texts(vals)
+
+
+def _follow(full, v0, rest, exact):
+    """number of physical lines after the one that holds `v0` that belong to the same entry, when the entry shows `full`
+    (whole, or - Target / Spec values only - cut off and followed by '...' / '... (len=N)'); None if the lines that follow
+    are not the text of `full`"""
+    value, n = v0, 0
+    while True:
+        if value == full or (not exact and shown_matches(value, full)):
+            return n
+        if not full.startswith(value + '\n') or n >= len(rest):
+            return None
+        value += '\n' + rest[n]
+        n += 1
+
+
+def split_entries(lines, texts, where, show):
+    """cut the physical lines of a trace into ENTRIES (one Target / Spec / error entry each).  A repr or an error message
+    may contain newlines: the entry then spans several physical lines, of which only the first carries the depth markers;
+    the others are the text of the value / message and must be reproduced verbatim (statement: 'every attempted branch
+    and the error that ended it appear', 'shows ... the target it actually received').  `texts`: the multi-line texts that
+    exist in this evaluation (known_texts): an entry whose first line shows the first line of one of them goes on with the
+    remaining lines of that text.  Returns (parsed entries, their first physical lines, number of physical lines)"""
+    parsed, firsts = [], []
+    i = 0
+    while i < len(lines):
+        p = parse_line(lines[i])
+        if p is None:
+            break
+        cands = [t for t in texts if ADDR.sub('', t.split('\n')[0]) == ADDR.sub('', p[3])]
+        n = 0
+        if cands:
+            # (as it stands, or - the texts may come from another evaluation of the same recipe - without memory addresses)
+            rest = lines[i + 1:i + 1 + max(t.count('\n') for t in cands)]
+            ns = [k for k in [_follow(t, p[3], rest, p[2] == 'error') for t in cands] +
+                  [_follow(ADDR.sub('', t), ADDR.sub('', p[3]), [ADDR.sub('', l) for l in rest], p[2] == 'error') for t in cands]
+                  if k is not None]
+            if not ns:
+                # (for the report: the candidate text that agrees with most of the lines that follow)
+                cands.sort(key=lambda t: -sum(1 for x, y in zip(t.split('\n')[1:], rest) if x == y))
+                raise Mismatch('entry-text-altered', '%s: the entry on trace line %d %r shows the first line of the %s\n%s\nthe remaining '
+                               'lines of that text must follow, unaltered and without markers; what follows is\n%s\n%s'
+                               % (where, i + 1, lines[i][:60], 'message' if p[2] == 'error' else 'value', cands[0],
+                                  '\n'.join(lines[i + 1:i + 1 + cands[0].count('\n')]), show))
+            n = max(ns)
+        parsed.append((p[0], p[1], p[2], '\n'.join([p[3]] + lines[i + 1:i + 1 + n])))
+        firsts.append(lines[i])
+        i += n + 1
+    return parsed, firsts, i
+
+
 def check_markers(lines, where, show):
-    """the branch markers are well-formed (docs/debugging.rst, "Reading Branched Exceptions": '+' starts a branching spec, each
+    """(`lines`: the FIRST physical line of every entry of the trace, see split_entries; the other physical lines of an
+    entry are text, not trace lines, and carry no marks.)  The branch markers are well-formed (docs/debugging.rst, "Reading Branched Exceptions": '+' starts a branching spec, each
     level of branch adds a '|' on the left, a backslash opens a new branch, 'X' marks the line on which a failed branch ends):
     every branch opens one level below the line above it (or right after the line that closed its elder sibling) with a
     backslash in its own column; 'X' stands only on the LAST line of the branch whose column it is in; a branch that is
@@ -426,7 +555,7 @@ def chainlike(spec):
     return type(spec) in (tuple, Pipe, Switch)
 
 
-def check_trace(err, root, target, where):
+def check_trace(err, root, target, where, texts=None):
     wrapped = err.__dict__.get('_GlomError__wrapped', err)
     try:
         text = str(err)
@@ -439,15 +568,10 @@ def check_trace(err, root, target, where):
     # P1 header
     if lines[0] != 'error raised while processing, details below.' or lines[1] != ' Target-spec trace (most recent last):':
         raise Mismatch('header', '%s: message starts with %r' % (where, lines[:2]))
-    parsed = []
-    for ln in lines[2:]:
-        p = parse_line(ln)
-        if p is None:
-            break
-        parsed.append(p)
-    tail = lines[2 + len(parsed):]
     show = '\n'.join(lines)
-    check_markers(lines[2:], where, show)
+    parsed, firsts, n_phys = split_entries(lines[2:], tree_texts(root) if texts is None else texts, where, show)
+    tail = lines[2 + n_phys:]
+    check_markers(firsts, where, show)
     # P2 first entry is the root target
     if not parsed or parsed[0][2] != 'Target' or parsed[0][0] != 0 or not shown_matches(parsed[0][3], fmtval(target, 0)):
         raise Mismatch('root-target', '%s: first trace entry is not the root target:\n%s' % (where, show))
@@ -485,7 +609,7 @@ def check_trace(err, root, target, where):
             # which node is it?
             culprit = [fmtval(x.spec, 0) for x in top.subtree() if shown_matches(p[3], fmtval(x.spec, 0))]
             raise Mismatch('stale-spec-line', '%s: trace line %r names a spec that is neither on the failing path nor an '
-                           'attempted branch of it (%s):\n%s' % (where, lines[2 + i], 'evaluated elsewhere' if culprit else 'unknown', show))
+                           'attempted branch of it (%s):\n%s' % (where, firsts[i], 'evaluated elsewhere' if culprit else 'unknown', show))
     # P3: one Spec line per nesting level of the failing path, in order
     pos = -1
     positions = []
@@ -674,7 +798,8 @@ def check(recipe, ctx):
     if not isinstance(plain, GlomError):
         ctx.label('not-wrapped')
         return
-    parsed, path, wrapped = check_trace(err, root, target, where)
+    texts = tree_texts(root)
+    parsed, path, wrapped = check_trace(err, root, target, where, texts)
     # a T expression that fails in argument position is the innermost spec that failed: it is listed
     for m_ in re.finditer(r"\['argfail', '[a-z-]+', (\d+)\]", repr(r)):
         want_ = "T['argnope%s']" % m_.group(1)
@@ -688,7 +813,7 @@ def check(recipe, ctx):
         failed_off_path = any(c.exc is not None and c not in path for n in path for c in n.children)
         if not failed_off_path:
             ctx.label('linear-exact')
-            exp_lines = render_linear(path, wrapped)
+            exp_lines = '\n'.join(render_linear(path, wrapped)).split('\n')      # (an entry may span several lines)
             got_lines = str(err).split('\n')[2:2 + len(exp_lines)]
             if [ADDR.sub('', l) for l in got_lines] != [ADDR.sub('', l) for l in exp_lines]:
                 raise Mismatch('linear-trace', '%s: expected the trace to start with\n%s\nbut it is\n%s'
@@ -698,9 +823,8 @@ def check(recipe, ctx):
         t_plain = str(plain)
     except Exception as e:
         raise Mismatch('str-raises', '%s: str(exc) raised %s: %s' % (where, type(e).__name__, e))
-    a = [parse_line(l) for l in t_plain.split('\n')[2:]]
-    a = [x for x in a[:len(parsed)]]
-    if [(p[0], p[1], p[2]) if p else None for p in a] != [(p[0], p[1], p[2]) for p in parsed]:
+    a = split_entries(t_plain.split('\n')[2:], texts, where + ' (evaluated without the tracer)', t_plain)[0]
+    if [(p[0], p[1], p[2]) for p in a] != [(p[0], p[1], p[2]) for p in parsed]:
         raise Mismatch('tracer-changes-trace', '%s: the trace differs with and without the evaluation tracer' % where)
     # widths
     scope = getattr(err, '_scope', None)
@@ -711,12 +835,14 @@ def check(recipe, ctx):
             except Exception as e:
                 raise Mismatch('width', '%s: format_target_spec_trace(width=%d) raised %r' % (where, w, e))
             ls = text.split('\n')
-            ps = [parse_line(l) for l in ls]
-            if [(p[0], p[1], p[2]) if p else None for p in ps] != [(p[0], p[1], p[2]) for p in parsed]:
+            ps, fs, n_ = split_entries(ls, texts, where + ' (width %d)' % w, text)
+            if n_ != len(ls) or [(p[0], p[1], p[2]) for p in ps] != [(p[0], p[1], p[2]) for p in parsed]:
                 raise Mismatch('width-structure', '%s: width %d changes the structure of the trace' % (where, w))
-            for l, p in zip(ls, ps):
-                if p and p[2] in ('Target', 'Spec') and len(l) > w:
-                    raise Mismatch('width-overflow', '%s: width %d: line of %d characters: %r' % (where, w, len(l), l))
+            for l, p in zip(fs, ps):
+                # (every physical line of a Target / Spec entry: the first with its marks and label, the rest as they are)
+                for l_ in [l] + p[3].split('\n')[1:]:
+                    if p[2] in ('Target', 'Spec') and len(l_) > w:
+                        raise Mismatch('width-overflow', '%s: width %d: line of %d characters: %r' % (where, w, len(l_), l_))
     depth = len(path)
     branchy = any(len([c for c in n.children if c.exc is not None]) >= 2 or
                   ([c for c in n.children if c.exc is not None] and [c for c in n.children if c.exc is not None] != [n.children[-1]])
@@ -728,6 +854,16 @@ def check(recipe, ctx):
         ctx.label('target-contains-itself')
     if "'keyerror'" in repr(r) or "'oserror'" in repr(r):
         ctx.label('exception-with-own-str')
+    # entries of several physical lines (F109).  Classes by what the trace has to show, from the evaluation tree:
+    # an error line / a Target line / a Spec line whose text has a newline; and the shape in which the mark that closes a
+    # branch (X) belongs on such an entry: an abandoned branch (a failed child of a level of the failing path that is not
+    # the one the path follows) that ends where its multi-line error was raised
+    shown_nodes = [c for n in path for c in n.children if c.exc is not None and c not in path]
+    if any('\n' in exc_line(c.exc) and not any(y.exc is not None for y in c.children) for c in shown_nodes):
+        ctx.label('abandoned-branch-ends-in-multiline-error')
+    for lab_, what_ in (('Target', 'multiline-target-entry'), ('Spec', 'multiline-spec-entry'), ('error', 'multiline-error-entry')):
+        if any(p[2] == lab_ and '\n' in p[3] for p in parsed):
+            ctx.label(what_)
     if branchy:
         ctx.label('branch-point')
     if recovered:
@@ -746,6 +882,11 @@ def check(recipe, ctx):
 # failure has no part in it); Iter(sub).windowed(n) / .map(sub).windowed(n), which pulls n - 1 items inside the Iter step
 # (the failure is then raised eagerly: every level once, nothing branches); a branching sub-spec all of whose
 # alternatives fail (the lazily failing branch of the Iter then ENDS in a nested branch: position of the closing X).
+# translated: the sub-spec fails while the consumer runs and the consuming step turns that error into ANOTHER one (a Coalesce
+# around the consumer -> CoalesceError, Or(consumer, <pattern>) -> the MatchError of its last alternative, a callable that
+# catches and raises an error of its own, with and without `from`): the lazily failing spec, the item it received and its
+# error still belong to the trace (F110).  'ml': the message of the lazily raised error, the repr of the failing sub-spec, the
+# repr of the items span several lines (F109: the lazily failing branch is closed on the first line of such an entry).
 
 class OkStep(object):
     """a chain step with a unique, address-free repr that passes its target on"""
@@ -767,6 +908,28 @@ class Consumer(OkStep):
 
     def __repr__(self):
         return 'consume%d' % self.n
+
+
+class Translator(Consumer):
+    """a consumer that catches whatever the stream raises and raises an error of its own (`except X: raise Y [from X]`)"""
+    def __init__(self, n, cls, chained):
+        Consumer.__init__(self, n)
+        self.cls, self.chained = cls, chained
+        self.caught = self.new = None
+
+    def __call__(self, t):
+        try:
+            self.out = list(t)
+        except Exception as e:
+            self.caught = e
+            self.new = (GlomError if self.cls == 'glom' else RuntimeError)('translated by consume%d' % self.n)
+            if self.chained:
+                raise self.new from e
+            raise self.new
+        return self.out
+
+    def __repr__(self):
+        return 'translate%d' % self.n
 
 
 GLOM_KINDS = ['path', 'tstep', 'glomerror']        # failures that are GlomErrors (Coalesce / Or / Not recover from them)
@@ -807,14 +970,15 @@ def gen_lazy(draw):
     # 'after': every item passes; a step AFTER the consumer fails (the chain must have continued from the consumer)
     # 'recovered': the sub-spec fails while the consumer runs, the consuming step RECOVERS (Or / Coalesce / Not around the
     #              consumer), a later step fails: the swallowed failure has no part in that error
-    mode = draw(S_(['lazy', 'lazy', 'lazy', 'after', 'after', 'recovered', 'recovered']))
+    # 'translated': the sub-spec fails while the consumer runs and the consuming step raises ANOTHER error in its place
+    mode = draw(S_(['lazy', 'lazy', 'lazy', 'lazy', 'after', 'after', 'after', 'after', 'recovered', 'recovered', 'translated', 'translated']))
     r = {'pre': draw(S_([0, 0, 1, 2, 3])), 'mid': draw(S_([0, 0, 1, 2, 3])), 'post': draw(S_([0, 1])),
          'fail': draw(S_(['path', 'tstep', 'glomerror', 'valueerror'])), 'failat': draw(S_([0, 0, 1])),
          # '-windowed': windowed(n) pulls its first n - 1 items INSIDE the Iter's own evaluation: a failure on one of them is
          # raised eagerly, by the Iter step itself
          # every stage that evaluates a spec per item: Iter(sub), map, filter, unique(key), takewhile(key), dropwhile(key)
          'how': draw(S_(['iter', 'iter', 'map', 'map', 'filter', 'unique', 'unique', 'takewhile', 'dropwhile'] +
-                        ([] if mode == 'recovered' else ['iter-windowed'] * 4 + ['map-windowed'] * 3))),
+                        ([] if mode in ('recovered', 'translated') else ['iter-windowed'] * 4 + ['map-windowed'] * 3))),
          'chain': draw(S_(['tuple', 'tuple', 'pipe'])),
          'wrap': draw(S_(['none', 'none', 'spec', 'auto', 'coalesce', 'dict', 'nested-chain'])),
          'mode': mode, 'sub': gen_subshape(draw)}
@@ -822,6 +986,16 @@ def gen_lazy(draw):
         r['win'] = draw(S_([2, 2, 3]))
     if mode == 'recovered':
         r['rec'] = 'coalesce-skipexc' if r['fail'] == 'valueerror' else draw(S_(['or', 'coalesce-default', 'coalesce-alt', 'and-not']))
+    if mode == 'translated':
+        # (Coalesce / Or react to GlomErrors; a ValueError needs skip_exc= or a callable that catches it)
+        r['trans'] = draw(S_(['coalesce-skipexc', 'coalesce-skipexc', 'callable', 'callable-from'] if r['fail'] == 'valueerror' else
+                             ['coalesce', 'coalesce', 'or-matcherror', 'or-matcherror', 'callable', 'callable-from']))
+        if r['trans'].startswith('callable'):
+            r['tclass'] = draw(S_(['glom', 'runtime']))
+    # entries of several physical lines: the message of the planted error (the kinds that raise it themselves), the repr of
+    # the failing sub-spec, the repr of the items
+    # (drawn so that the shrinker removes them)
+    r['ml'] = [x for x, n_ in (('msg', 2), ('spec', 3), ('item', 4)) if draw(S_(range(n_))) == n_ - 1]
     if r['how'] in KEYED_STAGES:
         # what the sub-spec returns for the items it passes: the item (falsy) or True.  takewhile / dropwhile reach the second
         # item only after a truthy key for the first
@@ -835,8 +1009,8 @@ def gen_lazy(draw):
 
 class FailAt(object):
     """sub-spec of the Iter: passes the items before position `at`, fails (in the planted way) on that one"""
-    def __init__(self, kind, at, tag='', passval='item'):
-        self.kind, self.at, self.tag, self.passval = kind, at, tag, passval
+    def __init__(self, kind, at, tag='', passval='item', ml=()):
+        self.kind, self.at, self.tag, self.passval, self.ml = kind, at, tag, passval, ml
         self.__name__ = 'failat'
         self.raised = None
 
@@ -854,16 +1028,18 @@ class FailAt(object):
         try:
             if self.inner() is not None:
                 return scope[glom.glom](target, self.inner(), scope)
+            more = '\nsecond line of the lazy message%s\n  third line, indented' % self.tag if 'msg' in self.ml else ''
             if self.kind == 'glomerror':
-                raise GlomError('lazy refuses' + self.tag)
-            raise ValueError('lazy fails' + self.tag)
+                raise GlomError('lazy refuses' + self.tag + more)
+            raise ValueError('lazy fails' + self.tag + more)
         except Exception as e:
             self.raised = e
             raise
 
     def __repr__(self):
-        return 'FailAt(%r, %d%s%s)' % (self.kind, self.at, ', %r' % self.tag if self.tag else '',
-                                       ', passval=%r' % self.passval if self.passval != 'item' else '')
+        return 'FailAt(%r, %d%s%s%s)' % (self.kind, self.at, ', %r' % self.tag if self.tag else '',
+                                         ', passval=%r' % self.passval if self.passval != 'item' else '',
+                                         ',\n  repr on two lines' if 'spec' in self.ml else '')
 
 
 class PassStep(object):
@@ -900,9 +1076,10 @@ def build_sub(r, at):
     """(sub-spec, its failing alternatives or None)"""
     shape = r.get('sub') or ['plain']
     pv = r.get('passval', 'item')
+    ml = tuple(r.get('ml', ()))
     if shape[0] == 'plain':
-        return FailAt(r['fail'], at, passval=pv), None
-    alts = [FailAt(k, at, '_' + 'xyz'[i], pv) for i, k in enumerate(list(shape[1]) + [r['fail']])]
+        return FailAt(r['fail'], at, passval=pv, ml=ml), None
+    alts = [FailAt(k, at, '_' + 'xyz'[i], pv, ml) for i, k in enumerate(list(shape[1]) + [r['fail']])]
     return Coalesce(*alts), alts
 
 
@@ -921,6 +1098,31 @@ def sub_error_is_glomerror(r):
     """the error that leaves the sub-spec is a GlomError (a CoalesceError when every alternative of a branching sub-spec
     failed with GlomErrors; the last alternative's ValueError passes through Coalesce)"""
     return r['fail'] != 'valueerror'
+
+
+def chain_error_is_glomerror(r):
+    """the error that leaves the CHAIN is a GlomError: the sub-spec's, or the one the consuming step raises in its place"""
+    if r.get('mode') == 'translated':
+        return not r['trans'].startswith('callable') or r.get('tclass', 'glom') == 'glom'
+    return sub_error_is_glomerror(r)
+
+
+def item_name(r):
+    return (ML_ITEM % (77, 'ab'[r['failat']])) if 'item' in r.get('ml', ()) else 'item77_' + 'ab'[r['failat']]
+
+
+def label_multiline(ctx, r, fails):
+    """classes of entries that span several physical lines.  `fails`: the sub-spec fails in this mode (the kinds that raise
+    their error themselves carry the multi-line message; a missing path segment / T step raises glom's own PathAccessError)"""
+    ml = r.get('ml', ())
+    shape = r.get('sub') or ['plain']
+    kinds = [r['fail']] + (list(shape[1]) if shape[0] == 'coalesce' else [])
+    if 'msg' in ml and fails and any(k_ in ('glomerror', 'valueerror') for k_ in kinds):
+        ctx.label('lazy-multiline-message')
+    if 'spec' in ml:
+        ctx.label('lazy-multiline-spec')
+    if 'item' in ml:
+        ctx.label('lazy-multiline-item')
 
 
 RESCUED = Named('rescued')
@@ -957,7 +1159,17 @@ def build_lazy(r):
         b.consuming = {'or': lambda: Or(c, Val(RESCUED)), 'coalesce-default': lambda: Coalesce(c, default=RESCUED),
                        'coalesce-alt': lambda: Coalesce(c, Val(RESCUED)), 'and-not': lambda: And(Not(c), Val(RESCUED)),
                        'coalesce-skipexc': lambda: Coalesce(c, default=RESCUED, skip_exc=ValueError)}[r['rec']]()
-    steps = [OkStep(i) for i in range(r['pre'])] + [Probe(77, 'list'), b.it] + [OkStep(10 + i) for i in range(r['mid'])] + \
+    b.extra = []           # the specs evaluated INSIDE the consuming step, in order
+    if mode == 'translated':
+        if r['trans'].startswith('callable'):
+            b.cons = b.consuming = Translator(20, r.get('tclass', 'glom'), r['trans'] == 'callable-from')
+        else:
+            c = b.cons
+            b.never = M == 'never-equal'
+            b.consuming = {'coalesce': lambda: Coalesce(c), 'coalesce-skipexc': lambda: Coalesce(c, skip_exc=ValueError),
+                           'or-matcherror': lambda: Or(c, b.never)}[r['trans']]()
+            b.extra = [c] + ([b.never] if r['trans'] == 'or-matcherror' else [])
+    steps = [OkStep(i) for i in range(r['pre'])] + [Probe(77, 'list-ml' if 'item' in r.get('ml', ()) else 'list'), b.it] + [OkStep(10 + i) for i in range(r['mid'])] + \
         [b.consuming] + [OkStep(30 + i) for i in range(r['post'])]
     if mode in ('after', 'recovered'):
         steps.append('missing_after' if r['fail'] in ('path', 'glomerror') else T['nope_after'])
@@ -973,18 +1185,14 @@ def build_lazy(r):
     return b
 
 
-def parse_trace(text, where):
+def parse_trace(text, where, texts=()):
+    """`texts`: the texts of several lines that exist in the evaluation (see split_entries)"""
     lines = text.split('\n')
     if lines[0] != 'error raised while processing, details below.' or lines[1] != ' Target-spec trace (most recent last):':
         raise Mismatch('header', '%s: message starts with %r' % (where, lines[:2]))
-    parsed = []
-    for ln in lines[2:]:
-        p_ = parse_line(ln)
-        if p_ is None:
-            break
-        parsed.append(p_)
-    one_line = check_markers(lines[2:], where, text)
-    return lines, parsed, lines[2 + len(parsed):], one_line
+    parsed, firsts, n_phys = split_entries(lines[2:], texts, where, text)
+    one_line = check_markers(firsts, where, text)
+    return lines, parsed, lines[2 + n_phys:], one_line
 
 
 def locator(parsed, where, show):
@@ -1083,7 +1291,12 @@ def check_lazy(recipe, ctx):
     except Exception as e:
         raise Mismatch('str-raises', '%s: str(exc) raised %s: %s' % (where, type(e).__name__, e))
     show = text
-    lines, parsed, tail, one_line = parse_trace(text, where)
+    texts = ()
+    if recipe.get('ml'):
+        # the texts of several lines that exist in this evaluation (reprs, error messages): from a second evaluation of the
+        # same recipe, recorded through scope[glom]
+        texts = tree_texts(trace_tree(build_lazy(recipe).full, Named('root-target'))[1])
+    lines, parsed, tail, one_line = parse_trace(text, where, texts)
     if one_line:
         ctx.label('one-line-closed-branch')
     if not parsed or parsed[0][2] != 'Target' or parsed[0][3] != 'root-target':
@@ -1104,7 +1317,7 @@ def check_lazy(recipe, ctx):
                                   'failed while the consumer ran, the consuming step recovered, and the error comes from a later step', show))
         above = [p_[3] for p_ in parsed[:order[-1]] if p_[2] == 'Target']
         received = fmtval(b.cons.out if mode == 'after' else RESCUED, 0)       # ([] for filter: the items are falsy)
-        if not above or above[-1] != received:
+        if not above or not shown_matches(above[-1], received):       # (a list of items with long reprs is cut off)
             raise Mismatch('innermost-target', '%s: the failing step received %s but the target shown above it is %r:\n%s'
                            % (where, received, above[-1] if above else None, show))
         # the whole chain completed step by step up to its last one: a linear chain, every level listed once
@@ -1131,12 +1344,13 @@ def check_lazy(recipe, ctx):
         if recipe.get('also'):
             ctx.label('two-lazy-stages', 'second-stage-spec-' + recipe['also'][1])
         ctx.label('lazy-' + recipe['how'])
+        label_multiline(ctx, recipe, mode == 'recovered')
         if recipe['mid']:
             ctx.label('steps-between')
         ctx.nontrivial(True)
         ctx.outcome([ADDR.sub('', repr(full))[:140], type(wrapped).__name__])
         return
-    caught_by_wrapper = recipe['wrap'] == 'coalesce' and sub_error_is_glomerror(recipe)
+    caught_by_wrapper = recipe['wrap'] == 'coalesce' and chain_error_is_glomerror(recipe)
     if b.eager:
         # the Iter step itself raised: the steps after it never ran, nothing is lazy about this failure
         upto = b.above + [chain] + steps[:n_it + 1]
@@ -1169,14 +1383,18 @@ def check_lazy(recipe, ctx):
         via = at(Check(sub, default=glom.SKIP), must=False) if recipe['how'] == 'filter' else None
         if via is not None and not order_a[-len(inner) - 1] < via < order_a[-len(inner)]:
             raise Mismatch('lazy-order', '%s: the Check through which filter() evaluates the sub-spec is not listed between the Iter and the sub-spec:\n%s' % (where, show))
-        n_expected = len(b.above) + 1 + len(evaluated) + len(inner) + (1 if caught_by_wrapper else 0) + (1 if via is not None else 0)
+        # (translated: + the specs evaluated inside the consuming step - the consumer itself, the last alternative of Or)
+        order_c = [at(b.consuming)] + [at(x) for x in b.extra]
+        if order_c != sorted(order_c):
+            raise Mismatch('lazy-order', '%s: the consuming step and the specs evaluated inside it are not listed in this order:\n%s' % (where, show))
+        n_expected = len(b.above) + 1 + len(evaluated) + len(inner) + (1 if caught_by_wrapper else 0) + (1 if via is not None else 0) + len(b.extra)
         if len(spec_lines) != n_expected:
             raise Mismatch('lazy-duplicate-line' if len(spec_lines) > n_expected else 'path-spec-missing',
                            '%s: %d Spec lines for %d evaluated specs:\n%s' % (where, len(spec_lines), n_expected, show))
     # the innermost failing spec is shown with the item it received
     innermost = sub if b.alts is not None and wrapped is not b.alts[-1].raised else inner[-1]
     idx = at(innermost)
-    item = 'item77_' + 'ab'[recipe['failat']]
+    item = item_name(recipe)
     above = [p_[3] for p_ in parsed[:idx] if p_[2] == 'Target']
     if not above or above[-1] != item:
         raise Mismatch('innermost-target', '%s: the failing sub-spec received %s but the target shown above it is %r:\n%s'
@@ -1187,6 +1405,35 @@ def check_lazy(recipe, ctx):
         if not b.eager:
             ctx.label('lazy-branch-ends-in-nested-branch')
     check_final_error(tail, wrapped, where, show)
+    if mode == 'translated':
+        # F110.  Statement: the trace goes 'down to the innermost spec that failed, shows for that spec the target it actually
+        # received'; that the consuming step answered the failure with an error of its own does not make the failure its own:
+        # the levels down to the failing sub-spec are listed (above), and the error raised there - which is not the one that
+        # leaves glom() - is shown where it was raised: below the spec that raised it, before any other spec is named
+        if b.alts is None:
+            if sub.raised is None:
+                raise HarnessBug('the sub-spec did not fail')
+            lo = at(inner[-1])
+            hi = min([i_ for i_, _ in spec_lines if i_ > lo] or [len(parsed)])
+            if not any(p_[2] == 'error' and p_[3] == exc_line(sub.raised) for p_ in parsed[lo + 1:hi]):
+                raise Mismatch('branch-error-missing', '%s: the error raised lazily by %s (%s), which %r answered with an error of its own, '
+                               'is not shown below the spec that raised it:\n%s' % (where, fmtval(inner[-1], 0)[:60], exc_line(sub.raised)[:100], b.consuming, show))
+        if isinstance(b.cons, Translator):
+            new = b.cons.new
+            if new is None or b.cons.caught is None:
+                raise HarnessBug('the translating consumer caught nothing')
+            if not caught_by_wrapper and not (type(wrapped) is type(new) and wrapped.args == new.args):
+                raise Mismatch('final-line', '%s: the error that left glom() is %r, the consuming step raised %r' % (where, wrapped, new))
+        elif not caught_by_wrapper and type(wrapped).__name__ != {'or-matcherror': 'MatchError'}.get(recipe['trans'], 'CoalesceError'):
+            raise HarnessBug('the consuming step %r did not raise an error of its own: %r' % (b.consuming, wrapped))
+        ctx.label('translated-lazy-failure', 'trans-' + recipe['trans'])
+    # the mark that closes the lazily failing branch (a branch of the Iter, followed by the branch of the consuming step)
+    # belongs on an entry of several lines: the message of the lazily raised error when that is not the error that leaves
+    # glom(), else the repr of the spec that raised it (F109)
+    if not b.eager and b.alts is None and sub.kind in ('glomerror', 'valueerror') and \
+            ('msg' if wrapped is not sub.raised else 'spec') in recipe.get('ml', ()):
+        ctx.label('lazy-branch-closed-on-multiline-entry')
+    label_multiline(ctx, recipe, True)
     ctx.label(*['stage-' + k_ for k_ in b.kinds])
     ctx.label(*['fails-in-stage:' + k_ for k_ in ([recipe['how']] if recipe['how'] in KEYED_STAGES else [])])
     if recipe.get('also'):
@@ -1387,13 +1634,23 @@ CLASSIFIERS = {'F36-call-args-lazy': is_call_args_lazy}
 
 SUBS = [
     Sub('trace', check, gen=gen, quick=3000, thorough=10000,
-        floors={'branch-point': 0.1, 'recovered-branch': 0.1, 'depth-3': 0.05, 'linear-exact': 0.1, 'target-contains-itself': 0.01, 'exception-with-own-str': 0.03, 'fails-in-argument-position': 0.02}),
-    Sub('lazy', check_lazy, gen=gen_lazy, quick=1600, thorough=3000, floors={'steps-between': 0.2, 'lazy-map': 0.05, 'fails-after-consumer': 0.12, 'recovered-lazy-failure': 0.12, 'windowed-eager': 0.07,
+        floors={'branch-point': 0.1, 'recovered-branch': 0.1, 'depth-3': 0.05, 'linear-exact': 0.1, 'target-contains-itself': 0.01, 'exception-with-own-str': 0.03, 'fails-in-argument-position': 0.02,
+                # entries of several physical lines (F109): an abandoned branch that ends in an error message of several lines (the
+                # closing X belongs on the FIRST line of that entry); error / Spec / Target entries of several lines in the trace
+                'abandoned-branch-ends-in-multiline-error': 0.08, 'multiline-error-entry': 0.145, 'multiline-spec-entry': 0.063,
+                'multiline-target-entry': 0.033}),
+    Sub('lazy', check_lazy, gen=gen_lazy, quick=2400, thorough=3000, floors={'steps-between': 0.2, 'lazy-map': 0.05, 'fails-after-consumer': 0.12, 'recovered-lazy-failure': 0.09, 'windowed-eager': 0.05,
                 'lazy-map-windowed': 0.04, 'branching-sub': 0.09, 'lazy-branch-ends-in-nested-branch': 0.06, 'one-line-closed-branch': 0.01,
                 # a step after the consumer fails, per kind of stage whose spec ran (and completed) on the items while the consumer ran
                 'after-consumer:iter': 0.05, 'after-consumer:map': 0.045, 'after-consumer:filter': 0.013, 'after-consumer:unique': 0.02,
                 'after-consumer:takewhile': 0.015, 'after-consumer:dropwhile': 0.013, 'two-lazy-stages': 0.15,
-                'fails-in-stage:filter': 0.01, 'fails-in-stage:unique': 0.025, 'fails-in-stage:takewhile': 0.008, 'fails-in-stage:dropwhile': 0.011}),
+                'fails-in-stage:filter': 0.01, 'fails-in-stage:unique': 0.025, 'fails-in-stage:takewhile': 0.008, 'fails-in-stage:dropwhile': 0.011,
+                # the consuming step answers the lazily raised failure with an error of its own (F110), per kind of consuming step
+                'translated-lazy-failure': 0.09, 'trans-coalesce': 0.028, 'trans-or-matcherror': 0.022, 'trans-callable': 0.013,
+                'trans-callable-from': 0.013, 'trans-coalesce-skipexc': 0.007,
+                # entries of several physical lines (F109); '...closed-on...': the X that closes the lazily failing branch belongs on one
+                'lazy-multiline-message': 0.097, 'lazy-multiline-spec': 0.148, 'lazy-multiline-item': 0.105,
+                'lazy-branch-closed-on-multiline-entry': 0.015}),
     Sub('matchalts', check_matchalts, gen=gen_matchalts, quick=300, thorough=1000),
     Sub('enclosed', check_enclosed, gen=gen_enclosed, quick=600, thorough=1500,
         floors={'first-key-fails': 0.2, 'first-key-composite': 0.12, 'enclose-dict-windowed': 0.1, 'branching-sub': 0.15}),
